@@ -87,5 +87,5 @@ def run(prop: str, contracts: list[Contract], lemmas: list[Lemma], z3_ms: int | 
 	for key, src in eng.functions.items():
 		rep.functions.append({'function': f'{src.file}:{src.qualname}', 'lines': [src.lineno, src.end_lineno], 'sha1': src.sha1})
 	rep.inlined = sorted(f'{f}:{q}' for f, q in eng.inlined)
-	rep.assumptions = sorted(f'external {n}: {REG.externals[n].note or ", ".join(REG.externals[n].axioms) or "uninterpreted"}' for n in eng.used_externals) + sorted(f'rewrite {r}' for r in eng.used_rewrites) + eng.notes
+	rep.assumptions = sorted(f'external {n}: {REG.externals[n].note or "; ".join(str(a) for a in REG.externals[n].axioms) or "uninterpreted"}' for n in eng.used_externals) + sorted(f'rewrite {r}' for r in eng.used_rewrites) + eng.notes
 	return rep
